@@ -3,6 +3,7 @@
 package gtree
 
 import (
+	"context"
 	"errors"
 
 	"github.com/fatih/color"
@@ -67,7 +68,7 @@ func c14Complete(mode uint, out string, lines []vLine) bool {
 func VerifC14Writer() {
 	n := verifN()
 	lines, rows := wellFormedLines(n, verifName)
-	mode := verifChoose("mode", 0, 5)
+	mode := verifChoose("mode", 0, 8)
 	if mode == 4 {
 		// TOML is claimed for single-root input only
 		for i := 1; i < len(lines); i++ {
@@ -92,6 +93,12 @@ func VerifC14Writer() {
 		err = OutputFromMarkdown(w, r, WithEncodeTOML())
 	case 5:
 		err = OutputFromMarkdown(w, r, WithDryRun())
+	case 6: // massive mode: the pipeline's own spreaders
+		err = OutputFromMarkdown(w, r, WithMassive(context.Background()))
+	case 7:
+		err = OutputFromMarkdown(w, r, WithMassive(context.Background()), WithEncodeJSON())
+	case 8:
+		err = OutputFromMarkdown(w, r, WithMassive(context.Background()), WithDryRun())
 	}
 	cls := "/text"
 	switch mode {
@@ -99,12 +106,19 @@ func VerifC14Writer() {
 		cls = "/encode"
 	case 5:
 		cls = "/dryrun"
+	case 6, 7, 8:
+		cls = "/massive"
 	}
 	if w.failed {
 		verifAssert(err != nil, "C14.writer.reported"+cls)
 	} else {
 		verifAssert(err == nil, "C14.writer.nospurious"+cls)
-		verifAssert(c14Complete(mode, w.out, lines), "C14.writer.complete"+cls)
+		if mode < 6 {
+			verifAssert(c14Complete(mode, w.out, lines), "C14.writer.complete"+cls)
+		}
+	}
+	if mode >= 6 {
+		verifAssert(verifQuiesce() == 0, "C14.writer.noleak/massive")
 	}
 	verifReach("C14.writer.end")
 }
